@@ -75,6 +75,9 @@ class CustomNot(OperatorNot):
 
     def operate_unary(self, tokens):
         right = tokens.get_right()
+        if isinstance(right, OperatorNot):  # repeated negation: evaluate the inner one first
+            right.operate_unary(tokens)
+            right = tokens.get_right()
         if isinstance(right, (bool, np.bool_)):
             right = BooleanType(right)
         tokens.put_right(right.logical_not())
